@@ -232,6 +232,8 @@ class Evaluator:
             return _TYPES[n.id]
         if n.id in ("True", "False", "None"):
             return {"True": True, "False": False, "None": None}[n.id]
+        if n.id in self.funcs:
+            return self.funcs[n.id]  # a supplied / lifted callable passed around as a value (map(f, xs), key=f)
         if n.id in self.defs and self._depth < 6:
             self._depth += 1
             try:
